@@ -385,9 +385,10 @@ func (cc *connectUnaryClientConn) validateResponse(response *http.Response) *Err
 		cc.responseTrailer[strings.TrimPrefix(k, connectUnaryTrailerPrefix)] = v
 	}
 	compression := response.Header.Get(connectUnaryHeaderCompression)
-	if compression != "" &&
+	unknownCompression := compression != "" &&
 		compression != compressionIdentity &&
-		!cc.compressionPools.Contains(compression) {
+		!cc.compressionPools.Contains(compression)
+	if response.StatusCode == http.StatusOK && unknownCompression {
 		return errorf(
 			CodeInternal,
 			"unknown encoding %q: accepted encodings are %v",
@@ -402,10 +403,12 @@ func (cc *connectUnaryClientConn) validateResponse(response *http.Response) *Err
 			bufferPool:      cc.bufferPool,
 		}
 		var serverErr Error
+		// A body in an encoding we don't know (an intermediary's error page,
+		// say) can't carry a Connect error for us: the HTTP status decides.
 		if err := unmarshaler.UnmarshalFunc(
 			(*connectWireError)(&serverErr),
 			json.Unmarshal,
-		); err == nil {
+		); err == nil && !unknownCompression {
 			if serverErr.code == 0 {
 				// The body is JSON but carries no usable error code ("code" absent
 				// or zero): fall back to the code implied by the HTTP status, so
